@@ -822,6 +822,7 @@ fn search(
                 Exp::Exact { line, .. } | Exp::AtLeast1 { line, .. } => !line.starts_with(':') || line.starts_with(&srv_prefix),
                 Exp::AnyOf { options, .. } => options.iter().all(|l| !l.starts_with(':') || l.starts_with(&srv_prefix)),
                 Exp::ModeAnn { head, .. } => !head.starts_with(':'),
+                Exp::OnePrefix { prefix, .. } => !prefix.starts_with(':') || prefix.starts_with(&srv_prefix),
                 _ => true,
             })
             .cloned()
